@@ -32,6 +32,7 @@ import (
 
 type cliCase struct {
 	creds int
+	sv    string
 	cc    string
 	rpc   string
 	call  string
@@ -54,7 +55,7 @@ func (c cliCase) inputTokens(withAttrs bool) string {
 		}
 		a = strings.Join(parts, "/")
 	}
-	return fmt.Sprintf("cli cr=%s cc=%s rpc=%s call=%s a=%s o=%s l=%s f=%s", credsTok(c.creds), c.cc, c.rpc, c.call, a, c.o, c.l, c.f)
+	return fmt.Sprintf("cli sv=%s cr=%s cc=%s rpc=%s call=%s a=%s o=%s l=%s f=%s", svTok(c.sv), credsTok(c.creds), c.cc, c.rpc, c.call, a, c.o, c.l, c.f)
 }
 
 func parseCliCase(f []string) (cliCase, error) {
@@ -66,7 +67,7 @@ func parseCliCase(f []string) (cliCase, error) {
 		}
 		kv[t[:i]] = t[i+1:]
 	}
-	c := cliCase{creds: credsOfTok(kv["cr"]), cc: kv["cc"], rpc: kv["rpc"], call: kv["call"], a: kv["a"], o: kv["o"], l: kv["l"], f: kv["f"]}
+	c := cliCase{creds: credsOfTok(kv["cr"]), sv: svTok(kv["sv"]), cc: kv["cc"], rpc: kv["rpc"], call: kv["call"], a: kv["a"], o: kv["o"], l: kv["l"], f: kv["f"]}
 	if strings.Contains(c.a, ":") {
 		parts := strings.Split(c.a, "/")
 		for i, s := range parts {
@@ -162,18 +163,22 @@ func newClients(h *harness) *clients { return &clients{h: h, by: map[string]clie
 
 // get returns the client configured with the user / password of the header token cc (n: none; b.<user>.<pass>).
 // The bundled client sends credentials only when its Username is not empty.
-func (cs *clients) get(creds int, cc string) (client.Client, error) {
-	key := strconv.Itoa(creds) + cc
+func (cs *clients) get(creds int, sv string, cc string) (client.Client, error) {
+	sv = svTok(sv)
+	key := strconv.Itoa(creds) + sv + cc
 	if c, ok := cs.by[key]; ok {
 		return c, nil
 	}
-	s := cs.h.server(creds)
+	s := cs.h.server(creds, sv)
 	hostport := strings.SplitN(s.addr, ":", 2)
 	addr, err := ma.NewMultiaddr("/ip4/" + hostport[0] + "/tcp/" + hostport[1])
 	if err != nil {
 		return nil, err
 	}
 	cfg := &client.Config{APIAddr: addr, DisableKeepAlives: false, Timeout: 20 * time.Second, LogLevel: "error"}
+	if s.scheme == "https" {
+		cfg.SSL, cfg.NoVerifyCert = true, true
+	}
 	if cc != "n" {
 		f := strings.SplitN(cc, ".", 3)
 		if len(f) != 3 || f[0] != "b" {
@@ -251,8 +256,8 @@ func expected(c cliCase, out interface{}) interface{} {
 }
 
 func (cs *clients) exec(c cliCase) (string, error) {
-	s := cs.h.server(c.creds)
-	cl, cerr := cs.get(c.creds, c.cc)
+	s := cs.h.server(c.creds, c.sv)
+	cl, cerr := cs.get(c.creds, c.sv, c.cc)
 	if cerr != nil {
 		return "", cerr
 	}
@@ -448,6 +453,7 @@ var typeMasks = []int{int(api.DataType), int(api.MetaType), int(api.ClusterDAGTy
 func genCli(r *common.Rng, call string) cliCase {
 	c := cliCase{rpc: "ok", call: call, a: "-", o: "-", l: "-", f: "-"}
 	c.creds = credsFor(r, 1, 3)
+	c.sv = svFor(r)
 	switch {
 	case c.creds == 0:
 		c.cc = []string{"n", "n", "b.u0.p0", "b.nobody.e"}[r.Intn(4)]
@@ -553,6 +559,15 @@ func sysCli() []cliCase {
 	}
 	for _, st := range simpleStatuses {
 		out = append(out, cliCase{creds: 0, cc: "n", rpc: "ok", call: "StatusAll", a: "-", o: "-", l: "0", f: strconv.Itoa(int(st.st))})
+	}
+	for _, sv := range allSv[1:] {
+		for _, call := range cliCalls {
+			for _, st := range []csit{{0, "n"}, {1, "n"}, {1, "b.u0.p0"}, {1, "b.nobody.e"}, {2, "b.u1.p1"}} {
+				c := genCli(r, call)
+				c.sv, c.creds, c.cc, c.rpc = sv, st.cr, st.cc, "ok"
+				out = append(out, c)
+			}
+		}
 	}
 	return out
 }
